@@ -145,7 +145,7 @@ def main():
                     res.append((name, "DOES-NOT-COMPILE")); print(name, "DOES-NOT-COMPILE", b.stderr[:300]); continue
                 for p in props:
                     t0 = time.time()
-                    c = sh("cd /verif && ./check %s quick" % p, env=env)
+                    c = sh("cd /verif && timeout 1500 ./check %s quick" % p, env=env)
                     ok = c.returncode == 1 and "VIOLATION property=%s" % p in c.stdout
                     first = [l for l in c.stdout.splitlines() if "violation[" in l][:1]
                     print("%-28s %s %-9s %5.1fs %s" % (name, p, "CAUGHT" if ok else "MISSED(rc=%d)" % c.returncode, time.time() - t0, (first[0][:160] if first else "")))
